@@ -11,6 +11,9 @@ Generated domain
       line, a label-only line in front of .ORG / SECTION, .ORG <earlier label>; near JP/CALL targets written as
       NUMBERS: page-relative low-16 literals, full addresses (page bits set) on the instruction's own page (must
       assemble like the label of that value) and on another page (must be rejected like the label);
+      BOUNDARY ORIGINS: `.ORG` to 0, 1, 0xFFFF, 0x10000, the section bases, 0xFFFFF at any position (after emitted
+      bytes, inside data / bss, after an earlier higher .ORG), kept wherever the model says the run collides with
+      nothing (M.settle_origins); code that runs across a 64 KiB boundary and then jumps page-locally to labels;
   (c) call histories: sequences of assemble() on 1..3 Assembler objects over valid and invalid programs.
 Oracle: layout model (c10_model.layout) for label addresses and byte placement, per-instruction standalone
 equivalence, operand-field extraction for label references, page rule, history independence.
@@ -38,6 +41,11 @@ RULE = ("programs drawn from the assembler grammar (labels in front of most stat
 # bytes) can never overlap; several sit just below a 64 KiB boundary.
 SLOTS = [0x00800, 0x01000, 0x04000, 0x0FFF0, 0x11000, 0x12000, 0x1FFFA, 0x21000, 0x3F800, 0x7F000,
          0x80800, 0x81000, 0x8FFF8, 0x90800, 0xA0000, 0xEFFFC, 0xFF000]
+# Boundary origins: the values an origin directive is most likely to mishandle (0 -- the one value a truthiness
+# test confuses with "no operand" --, 1, the first/last address of a 64 KiB page, the section bases themselves,
+# the last address of the 20-bit space).  Unlike SLOTS they are NOT kept apart by construction: M.settle_origins
+# keeps such an origin only where the run it starts collides with nothing (else the directive falls back to a slot).
+EDGE_ORIGINS = [0x00000, 0x00000, 0x00000, 0x00001, 0x0FFFF, 0x10000, 0x80000, 0x90000, 0xFFFFF]
 MAX_DEFS = 48
 COMMENTS = ["note", "x: y", "NOP", 'say "hi"', "defb 1, 2", ".ORG 0x10", "SECTION data", "a;b"]
 STR_ALPHABET = "ABCXYZabcxyz0189 !#$%&'()*+,-./:;<=>?@[]^_{|}~"
@@ -88,8 +96,15 @@ def _strategies() -> Any:
         f_pair = special and draw(pct) < 5
         f_orgsym = special and draw(pct) < 4
         f_prelabel = special and draw(pct) < 8
+        # boundary-origin programs: the source starts with a location directive (code placed high first, or a data /
+        # bss section), so nothing occupies the bottom of the address space when a later `.ORG 0` / `.ORG 1` moves a
+        # NON-ZERO location counter there; such programs also draw most of their origins from EDGE_ORIGINS
+        f_edge = special and draw(pct) < 14
+        # code that RUNS ACROSS a 64 KiB boundary (origin a few bytes below it, no location directive in between) and
+        # then uses page-local JP/CALL with labels: the page that counts is the instruction's own, not the run's
+        f_across = special and draw(pct) < 8
         code_name = "text" if draw(pct) < 5 else "code"
-        multi = draw(pct) < 75  # programs that use SECTION / .ORG at all
+        multi = draw(pct) < 75 or f_edge  # programs that use SECTION / .ORG at all
         lines: List[Dict[str, Any]] = []
         used_slots: List[int] = []
         counter = [0]
@@ -116,6 +131,16 @@ def _strategies() -> Any:
             used_slots.append(s)
             return s
 
+        def origin(edge_pct: int) -> Optional[Dict[str, Any]]:
+            """A numeric `.ORG`: an ordinary slot, or (edge_pct %) a boundary origin that falls back to that slot."""
+            s = free_slot()
+            if s is None:
+                return None
+            stmt = {"t": "org", "addr": s, "style": draw(st.integers(0, 3))}
+            if draw(pct) < edge_pct:
+                stmt.update({"addr": draw(st.sampled_from(EDGE_ORIGINS)), "alt": s, "edge": True})
+            return stmt
+
         cur = "code"
         if code_name == "text":
             lines.append(deco({"label": None, "stmt": {"t": "section", "name": "text", "text": "SECTION text"}}))
@@ -131,15 +156,27 @@ def _strategies() -> Any:
                 cur = nm
             lines.append(deco({"label": new_label(), "own_line": True, "stmt": first}))
             lines[-1]["blank"] = 0
+        if f_edge:
+            h = draw(pct)
+            if h < 50:
+                lines.append(deco({"label": None, "stmt": origin(0)}))
+            else:
+                nm = "data" if h < 80 else "bss"
+                lines.append(deco({"label": None, "stmt": {"t": "section", "name": nm, "text": "SECTION " + nm}}))
+                cur = nm
+        edge_pct = 60 if f_edge else 20
         anchor: Optional[str] = None
         if f_orgsym:
-            s = free_slot()
             anchor = new_label()
             lines.append(deco({"label": None, "stmt": {"t": "section", "name": "bss", "text": "SECTION bss"}}))
-            lines.append(deco({"label": None, "stmt": {"t": "org", "addr": s, "style": 0}}))
+            # the anchor's address may itself be a boundary origin: `.ORG <label whose value is 0>` further down
+            lines.append(deco({"label": None, "stmt": dict(origin(40), style=0)}))
             lines.append(deco({"label": anchor, "stmt": {"t": "defs", "n": draw(st.integers(1, 16))}}))
             lines.append(deco({"label": None, "stmt": {"t": "section", "name": code_name,
                                                        "text": "SECTION " + code_name}}))
+            if lines[-3]["stmt"].get("edge"):
+                # keep the bottom of the address space free for the code that `.ORG <anchor>` will put there
+                lines.append(deco({"label": None, "stmt": origin(0)}))
         paired = False
         for _ in range(n):
             kind = draw(st.sampled_from(KINDS))
@@ -155,9 +192,9 @@ def _strategies() -> Any:
                 cur = name
                 continue
             if kind == "org":
-                s = free_slot()
-                if s is not None:
-                    ln = {"label": None, "stmt": {"t": "org", "addr": s, "style": draw(st.integers(0, 3))}}
+                ostmt = origin(edge_pct)
+                if ostmt is not None:
+                    ln = {"label": None, "stmt": ostmt}
                     if f_prelabel and draw(pct) < 40:
                         ln["label"] = new_label()
                         ln["own_line"] = True
@@ -210,6 +247,21 @@ def _strategies() -> Any:
                 lines.append(deco({"label": new_label(), "stmt": {"t": "instr", "shape": info["template"],
                                                                   "ops": [None]}}))
                 lines.append(deco({"label": new_label(), "stmt": {"t": "instr", "shape": "RET", "ops": []}}))
+        if f_across and _PAL_NEAR:
+            below = [x for x in SLOTS if (x & 0xFFFF) >= 0xFF00 and x not in used_slots]
+            if below:
+                s = draw(st.sampled_from(below))
+                used_slots.append(s)
+                lines.append(deco({"label": None, "stmt": {"t": "section", "name": code_name,
+                                                           "text": "SECTION " + code_name}}))
+                cur = code_name
+                lines.append(deco({"label": None, "stmt": {"t": "org", "addr": s, "style": draw(st.integers(0, 3))}}))
+                for k in range(draw(st.integers(4, 9))):
+                    info = draw(st.sampled_from(_PAL_NEAR if (k >= 3 and draw(pct) < 45) else _PALETTE))
+                    lines.append(deco({"label": new_label() if draw(pct) < 70 else None,
+                                       "stmt": {"t": "instr", "shape": info["template"],
+                                                "ops": [None] * len(info["slots"])}}))
+                lines.append(deco({"label": new_label(), "stmt": {"t": "instr", "shape": "RET", "ops": []}}))
         if f_litcross and _PAL_NEAR:
             # make sure the program has a near JP/CALL that can carry the literal (own origin in half of the cases,
             # so that the instruction sits on pages other than the ones the rest of the program uses)
@@ -223,6 +275,23 @@ def _strategies() -> Any:
             info = draw(st.sampled_from(_PAL_NEAR))
             lines.append(deco({"label": new_label() if draw(pct) < 50 else None,
                                "stmt": {"t": "instr", "shape": info["template"], "ops": [None]}}))
+        if f_edge:
+            # "... and the entry stub / the table at the bottom last": a boundary origin after everything else
+            ostmt = origin(100)
+            if ostmt is not None:
+                if draw(pct) < 60:
+                    nm = draw(st.sampled_from(["data", "bss", code_name, code_name]))
+                    lines.append(deco({"label": None, "stmt": {"t": "section", "name": nm, "text": "SECTION " + nm}}))
+                    cur = nm
+                lines.append(deco({"label": None, "stmt": ostmt}))
+                for _ in range(draw(st.integers(1, 2))):
+                    if cur == "bss" or draw(pct) < 40:
+                        stmt = {"t": draw(st.sampled_from(["defb", "defw", "defl"])),
+                                "args": [None] * draw(st.integers(1, 3))}
+                    else:
+                        info = draw(st.sampled_from(_PAL_SYM if draw(pct) < 50 else _PALETTE))
+                        stmt = {"t": "instr", "shape": info["template"], "ops": [None] * len(info["slots"])}
+                    lines.append(deco({"label": new_label() if draw(pct) < 75 else None, "stmt": stmt}))
         if draw(pct) < 15:
             lines.append(deco({"label": new_label(), "own_line": True, "stmt": None}))  # trailing `end:` label
         unstable: set = set()
@@ -249,6 +318,7 @@ def _strategies() -> Any:
             elif stmt["t"] in M.DATA_W:
                 k = {"defb": "b", "defw": "w", "defl": "l"}[stmt["t"]]
                 stmt["args"] = [{"num": draw(NUM[k]), "style": draw(st.integers(0, 3))} for _ in stmt["args"]]
+        M.settle_origins(prog)  # boundary origins stay only where their run collides with nothing
         lay = M.layout(prog)
         labs = {k: v for k, v in lay["labels"].items() if not v["pre_location"] and k not in unstable}
         defined_as = {ln["label"].upper(): ln["label"] for ln in lines if ln.get("label")}
@@ -350,6 +420,9 @@ def _features(prog: Dict[str, Any]) -> Tuple[List[str], bool]:
     org = False
     lay = M.layout(prog)
     addr_of = {r["idx"]: r["addr"] for r in lay["recs"]}
+    before_of = {r["idx"]: r["before"] for r in lay["recs"] if "before" in r}
+    run_start = {r["idx"]: (addr_of[r["owner"]] if r["owner"] is not None else M.SECTION_BASE[r["section"]])
+                 for r in lay["recs"] if "owner" in r}
     for i, ln in enumerate(lines):
         stmt = ln.get("stmt")
         if not stmt:
@@ -372,6 +445,22 @@ def _features(prog: Dict[str, Any]) -> Tuple[List[str], bool]:
                 labels.append("org-decimal" if int(stmt.get("style", 0)) % 4 == 2 else "org-hex")
                 if (stmt["addr"] & 0xFFFF) >= 0xFF00:
                     labels.append("org-page-edge")
+                if stmt.get("edge"):
+                    labels.append(f"org-boundary:{int(stmt['addr']):#x}")
+                    labels.append("org-boundary-in-" + ("bss" if cur_sec == "bss" else
+                                                        "data" if cur_sec == "data" else "code"))
+                if stmt.get("moved"):
+                    labels.append("org-boundary-gave-way-to-a-slot")
+                if int(stmt["addr"]) == 0 and before_of.get(i, 0) != 0:
+                    labels.append("org-zero-moves-nonzero-counter")
+                    labels.append("org-zero-moves-nonzero-counter:" + ("bss" if cur_sec == "bss" else
+                                  "data" if cur_sec == "data" else "code"))
+                if int(stmt["addr"]) == before_of.get(i):
+                    labels.append("org-equals-current-counter")
+                elif int(stmt["addr"]) < before_of.get(i, 0):
+                    labels.append("org-moves-backwards")
+            if "sym" in stmt and addr_of.get(i) == 0 and before_of.get(i, 0) != 0:
+                labels.append("org-symbol-zero-moves-nonzero-counter")
             if ln.get("label"):
                 labels.append("label-line-before-ORG")
         else:
@@ -388,6 +477,9 @@ def _features(prog: Dict[str, Any]) -> Tuple[List[str], bool]:
             if t == "instr":
                 if S.is_near(stmt["shape"]) and "sym" in stmt["ops"][0]:
                     labels.append("near-symbolic")
+                    if (addr_of.get(i, 0) >> 16) != (run_start.get(i, 0) >> 16):
+                        # the run this jump belongs to began on the previous page and ran across the boundary
+                        labels.append("near-symbolic-after-running-across-a-page-boundary")
                     if addr_of.get(i, 0) > 0xFFFF:
                         labels.append("near-symbolic-high-page")
                 elif S.is_near(stmt["shape"]):
@@ -657,6 +749,9 @@ def run(ctx: Ctx) -> Report:
         "the page rule; a numeric target with page bits (> 0xFFFF) is the value a label would have and is judged "
         "like the label: same page -> field = low 16 bits, other page -> rejected; consequently a label on page 0 "
         "is never replaced by its value when the literal form of a rejected cross-page program is tried",
+        "two runs never emit to the same address and no statement extends beyond 0x100000: a boundary origin "
+        "(.ORG 0 / 1 / page edge / section base / 0xFFFFF) whose run would collide falls back to a separate slot; "
+        "this is decided on the layout model inside the generator, never on the output of the tree under test",
         "strings contain no double quote or backslash; numbers have no leading zeros; label names never coincide "
         "with register or internal-memory register names",
         "history verdicts compare with a fresh Assembler in the same process (module-level caches are already "
@@ -698,6 +793,8 @@ def shrink(ctx: Ctx, v: Violation) -> Violation:
 
     def still(case: Dict[str, Any]) -> Optional[Violation]:
         try:
+            if case.get("kind") == "program" and not M.in_domain(case):
+                return None  # the reduction left the generated domain (e.g. a symbol no longer fits its field)
             for x in replay(ctx, case):
                 if x.key() == key:
                     return x
